@@ -1,3 +1,4 @@
+import KM.Gen.Pins
 import KM.Props.C06
 import KM.Model.CertGen
 /-! # C01 — certificates are issued only after the operator-required authentication
@@ -314,3 +315,16 @@ example : SpecSufficient ["TOTP".toList] (authTypePassword ||| authTypeTOTP) ∧
   refine ⟨Or.inr (Or.inr ⟨_, List.mem_cons_self, authTypeTOTP, by decide, by decide⟩), by decide⟩
 
 end KM.CertGen
+
+-- BEGIN PINS (written by bin/update-pins.py)
+namespace KM.CertGen
+
+/-- **Source pins** (regenerated): SHA-256 (first 80 bits) of the signature and body, whitespace-normalised,
+of `certGenHandler`, which `KM.CertGen.decide` transcribes (its gate functions are pinned by `c06_source_pins`) — equal to the values recorded when the model was last
+read against the code. Any edit, harmless or not, breaks this tie. -/
+theorem c01_source_pins :
+    KM.Gen.Pins.certGenHandler = "eb2ac932a11df9304a29" := by
+  exact rfl
+
+end KM.CertGen
+-- END PINS
